@@ -67,7 +67,7 @@ type simClient struct {
 
 var _ client.Client = &simClient{}
 
-func (c *simClient) Scheme() *runtime.Scheme   { return Scheme }
+func (c *simClient) Scheme() *runtime.Scheme     { return Scheme }
 func (c *simClient) RESTMapper() meta.RESTMapper { return c.w.fake.RESTMapper() }
 
 func gvkOf(obj runtime.Object) schema.GroupVersionKind {
